@@ -10,7 +10,22 @@ datasheet/documentation encoder) vs. the simulated radio's register file, the si
 of illegal writes, every getter, and a behavioural cache check (leave and re-enter `with` on a
 copy: nothing may change).
 
-Parameterised by driver class (PROFILES) because C20 re-runs a reduced alphabet on rf24_lite.
+Signatures: C03/<clause>:<attribute or method>:<argument class>, clause in
+  defaults      register file after construction != documented defaults
+  exception     documented exception class missing / undocumented exception raised
+  encoding      a field that belongs to the attribute holds another value than documented
+  foreign       a register / bit field that does not belong to the attribute was altered
+  illegal-write / ro-write   the simulator recorded a reserved / out-of-range value or a write to a read-only register
+  cache         a `with` re-entry on a copy changes a register (cached view != radio)
+  getter        a getter does not return the value in effect
+  exit          __exit__ leaves PWR_UP set or CE high
+  restore       the non-plus carrier-wave test's documented recovery (`with`) does not re-establish the settings
+The first failing clause (in this order) names the violation and the sequence is cut there.  Per
+signature the shortest counterexample (then the first in alphabet order) is recorded, independent of
+worker scheduling.
+
+Parameterised by driver class (PROFILES) because C20 re-runs a reduced alphabet on rf24_lite
+(`run_setters(tier, seed, rep, cls_name="lite", pid="C20")`).
 """
 import copy
 
